@@ -95,6 +95,7 @@ func refSendBody(sc Scn, src, dst fsmodel.Tree, destDir string, res *RefSendRes)
 	return func(t *testing.T, s *Stepper, x *Exec) {
 		link := netsim.NewLink(sc.Cap)
 		link.PostYield = sc.PostYield
+		link.Rendezvous = sc.Rendezvous
 		rctx, rcancel := context.WithCancel(context.Background())
 		defer rcancel()
 		sEnd := link.End("S", context.Background())
@@ -551,6 +552,10 @@ func driveC07(p *Pool, r *evid.Run) {
 	for _, pol := range []string{"run", "recv"} {
 		scns = append(scns, Scn{Kind: "refsend", Src: "c7orphan", Dst: "c7orphan-old", Cap: 64, Policy: pol, SelectAlts: true},
 			Scn{Kind: "refsend", Src: "c7dots", Dst: "empty", Cap: 64, Policy: pol, SelectAlts: true}, Scn{Kind: "refsend", Src: "c7dots", Dst: "c7diff", Cap: 2, Policy: pol, SelectAlts: true})
+	}
+	// a stream without any buffer
+	for _, pol := range pols {
+		scns = append(scns, Scn{Kind: "refsend", Src: "c7tiny", Dst: "c7diff", Cap: 1, Policy: pol, SelectAlts: true, Rendezvous: true})
 	}
 	// sends that return late, around the ordinary policies
 	for _, pol := range pols {
